@@ -520,6 +520,27 @@ def transformed_copy(mode, suffix="_q"):
         files += [os.path.join(root, f) for f in fs if f.endswith(".py") and not f.endswith("_test.py")]
     files.append(os.path.join(scratch, "nextflow", "scripts", "batchie.py"))
     sig = _signatures([ast.parse(open(p_).read()) for p_ in files if os.path.exists(p_)]) if mode == "keyword-arguments" else {}
+    if mode.startswith("combined"):
+        # several rewrites on top of one another (each still preserves behaviour): the checks must not depend on a spelling surviving the others
+        order = {"combined": ["name-arguments", "name-tests", "swap-arms", "else-after-exit", "flip-comparisons", "keyword-arguments", "generators-for-lists", "hoist-returns", "rename-locals"],
+                 "combined-2": ["inline-temps", "unelse", "swap-arms", "flip-comparisons", "hoist-returns", "name-tests", "rename-locals"]}[mode]
+        shutil.rmtree(scratch, ignore_errors=True)
+        prev_root = os.environ.get("VERIF_REPO_ROOT")
+        cur_root = None
+        try:
+            for m_ in order:
+                nxt, k = transformed_copy(m_, suffix)
+                total += k
+                if cur_root:
+                    shutil.rmtree(cur_root, ignore_errors=True)
+                cur_root = nxt
+                os.environ["VERIF_REPO_ROOT"] = cur_root
+        finally:
+            if prev_root is None:
+                os.environ.pop("VERIF_REPO_ROOT", None)
+            else:
+                os.environ["VERIF_REPO_ROOT"] = prev_root
+        return cur_root, total
     for path in files:
         if not os.path.exists(path):
             continue
@@ -548,7 +569,7 @@ def main():
     if "--only" in sys.argv:
         only = sys.argv[sys.argv.index("--only") + 1].split(",")
     mode = "rename-locals"
-    for m_ in ("hoist-returns", "name-arguments", "unelse", "else-after-exit", "flip-comparisons", "keyword-arguments", "inline-temps", "swap-arms", "generators-for-lists", "name-tests"):
+    for m_ in ("hoist-returns", "name-arguments", "unelse", "else-after-exit", "flip-comparisons", "keyword-arguments", "inline-temps", "swap-arms", "generators-for-lists", "name-tests", "combined-2", "combined"):
         if "--" + m_ in sys.argv:
             mode = m_
     out = tempfile.mkdtemp(prefix="batchie-verif-alpha-out-", dir="/var/tmp")
